@@ -44,13 +44,15 @@ REG["C16"] = {
         "R7: FromIterator for BTreeMap over a.into_iter().chain(b): later insert wins (external_body __btree_chain_collect, operands spliced verbatim)",
         "R15: X.clone().or_else(|| Y.clone()) == pick(X, Y): Clone of bool/i32/Duration/PathBuf/derived-Clone types yields an equal value",
         "R14: Vec::extend(Vec) appends in order; Option::or per std docs (assume_specification)",
-        "the ORDER in which the call sites compose the layers (markdown.rs TestCodeBlock arm, stateful_executor.rs, bin/commands/test.rs) is out of reach: "
-        "checked textually only (anchor lost => exit 2); format defaults (default_markdown/default_cram values) are not checked",
+        "call sites: the composing EXPRESSIONS in MarkdownParser::parse (set_testcase_config argument) and StatefulExecutor::execute_all "
+        "(testcase.config = ...) are extracted verbatim as functions of their own and verified against tc_layer3/tc_layer; the rest of those functions is dropped. "
+        "The command-line layer (bin/commands/test.rs with_overrides_from(&testcase_config)) is checked textually only (anchor lost => exit 2)",
+        "field-access shims TestCaseShim/ContextShim stand for TestCase.config / Context.config",
     ],
     "not_decided": ["that every command-line flag is translated into the cli layer (bin/commands/root.rs)", "the values of the format defaults"],
     "callsites": [
-        ("src/parsers/markdown.rs", "parsed_config.with_defaults_from(&config.defaults).with_defaults_from(&self.base_testcase_config)"),
-        ("src/executors/stateful_executor.rs", "testcase.config=testcase.config.with_defaults_from(&context.config.defaults);"),
+        ("src/bin/commands/test.rs", ".with_overrides_from(&testcase_config)"),
+        ("src/bin/commands/test.rs", "test.config.with_overrides_from(&document_config)"),
     ],
 }
 
